@@ -20,6 +20,7 @@ import (
 	"sync"
 	"time"
 
+	"github.com/go-openapi/spec"
 	"github.com/go-openapi/spec/verifrt"
 )
 
@@ -177,6 +178,11 @@ func newResult(shard int) *WorkerResult {
 
 func main() {
 	log.SetOutput(io.Discard) // the library logs errors it continues on
+	// ... and warnings about ill-formed locations through a logger of its own that writes to the standard
+	// output, where the harness processes exchange their results
+	if lp, ok := spec.VerifGlobals()["specLogger"].(**log.Logger); ok && *lp != nil {
+		(*lp).SetOutput(io.Discard)
+	}
 	if len(os.Args) < 2 {
 		die("usage: vcheck check|worker|replay ...")
 	}
